@@ -19,36 +19,41 @@ WHAT = 'maxThreads bounds the concurrency of parallel loops'
 def run(ctx):
     thorough = ctx.tier == 'thorough'
     exe = lc.build(ctx)
-    ctx.check_model(lc.SPEC, 'MCParForApi.tla', 'MC_api_plan_thorough.cfg' if thorough else 'MC_api_plan.cfg', WHAT,
-                    label='plan level: tasks + caller <= maxThreads, every option combination', workers=4, timeout=1500,
-                    vacuity_exempt=('Next',))
-    ctx.check_model(lc.SPEC, 'MCParForApi.tla', 'MC_api_inter_thorough.cfg' if thorough else 'MC_api_inter.cfg', WHAT,
-                    label='parallel_for: all interleavings', workers=4, timeout=1500)
-    ctx.check_model(lc.SPEC, 'MCForEach.tla', 'MC_fe_inter_thorough.cfg' if thorough else 'MC_fe_c48.cfg', WHAT,
-                    label='for_each_n: all interleavings', workers=4, timeout=1500)
-    lc.negative_control(ctx, 'MCParForApi.tla', 'MC_api_neg_tail_c48.cfg',
-                        'original static no-wait tail: maxThreads chunks + the tail on the caller', 'ConcurrencyBound')
-    lc.negative_control(ctx, 'MCParForApi.tla', 'MC_api_neg_clamp_c48.cfg',
-                        'original adjustChunkSizing discards maxThreads for small explicitly chunked ranges', 'ConcurrencyBound')
+    if not lc.SKIP_E1:   # (mutation runs of the dispenso code skip the code-independent model checking)
+        ctx.check_model(lc.SPEC, 'MCParForApi.tla', 'MC_api_plan_thorough.cfg' if thorough else 'MC_api_plan.cfg', WHAT,
+                        label='plan level: tasks + caller <= maxThreads, every option combination', workers=4, timeout=1500,
+                        vacuity_exempt=('Next',))
+        ctx.check_model(lc.SPEC, 'MCParForApi.tla', 'MC_api_inter_thorough.cfg' if thorough else 'MC_api_inter.cfg', WHAT,
+                        label='parallel_for: all interleavings', workers=4, timeout=1500)
+        ctx.check_model(lc.SPEC, 'MCForEach.tla', 'MC_fe_inter_thorough.cfg' if thorough else 'MC_fe_c48.cfg', WHAT,
+                        label='for_each_n: all interleavings', workers=4, timeout=1500)
+        lc.negative_control(ctx, 'MCParForApi.tla', 'MC_api_neg_tail_c48.cfg',
+                            'original static no-wait tail: maxThreads chunks + the tail on the caller', 'ConcurrencyBound')
+        lc.negative_control(ctx, 'MCParForApi.tla', 'MC_api_neg_clamp_c48.cfg',
+                            'original adjustChunkSizing discards maxThreads for small explicitly chunked ranges', 'ConcurrencyBound')
     rng = random.Random(ctx.seed + 48)
 
     def low(s):  # bias towards small maxThreads: the bound is then tight
         return s if rng.random() < 0.3 else lc.re.sub(r'mt=\d+', 'mt=%d' % rng.choice([0, 1, 2, 2, 3]), s)
     scens = lc.PF_REGRESSION[:6] + [low(lc.pf_scenario(rng)) for _ in range(80 if thorough else 16)]
     tr, done, _ = lc.run_controlled(ctx, exe, scens, 8 if thorough else 3, ctx.seed, WHAT, 'ParForApiTrace.tla',
-                                    'ParForApiTrace.cfg', 'controlled executions of parallel_for')
+                                    'ParForApiTrace.cfg', 'controlled executions of parallel_for', validate=False)
     fes = [low(lc.fe_scenario(rng)) for _ in range(60 if thorough else 12)]
     tr2, done2, _ = lc.run_controlled(ctx, exe, fes, 6 if thorough else 2, ctx.seed, WHAT, 'ForEachTrace.tla',
-                                      'ForEachTrace.cfg', 'controlled executions of for_each_n')
+                                      'ForEachTrace.cfg', 'controlled executions of for_each_n', validate=False)
     ctx.sample({'scenarios': scens[:8] + fes[:4]})
     big = ['pf:N=8,n=23,mode=0,mt=3,wait=0,g=4', 'pf:N=8,n=6,mode=2,c=1,mt=2,wait=1', 'pf:N=8,n=5,mode=2,c=1,mt=1,wait=0',
            'pf:N=8,n=31,mode=1,mt=4,wait=0,g=3', 'pf:N=8,n=40,mode=1,mt=5,wait=1'] + \
         [low(lc.pf_scenario(rng, big=True)) for _ in range(120 if thorough else 24)]
     trf, donef, _ = lc.run_free(ctx, exe, big, 6 if thorough else 2, ctx.seed, WHAT, 'ParForApiTrace.tla', 'ParForApiTrace.cfg',
-                                'free-running parallel_for with rendezvous bodies')
+                                'free-running parallel_for with rendezvous bodies', validate=False)
     bigfe = [low(lc.fe_scenario(rng, big=True)) for _ in range(60 if thorough else 10)]
     trf2, donef2, _ = lc.run_free(ctx, exe, bigfe, 4 if thorough else 2, ctx.seed, WHAT, 'ForEachTrace.tla', 'ForEachTrace.cfg',
-                                  'free-running for_each_n with rendezvous bodies')
+                                  'free-running for_each_n with rendezvous bodies', validate=False)
+    lc.validate_all(ctx, [(tr, done), (trf, donef)], WHAT, 'ParForApiTrace.tla', 'ParForApiTrace.cfg',
+                    'controlled + free-running executions of parallel_for')
+    lc.validate_all(ctx, [(tr2, done2), (trf2, donef2)], WHAT, 'ForEachTrace.tla', 'ForEachTrace.cfg',
+                    'controlled + free-running executions of for_each_n')
     ctx.sample_trace(trf, 10, skip=1)
     ctx.cov['evaluations'] = done + done2 + donef + donef2
     ctx.cov['peak_concurrent_bodies_observed'] = {'parallel_for': max(lc.peak_concurrency(tr), lc.peak_concurrency(trf)),
